@@ -91,8 +91,8 @@ def kind_of(n):
     return "any"
 
 
-def leaf(ch, v, k, s, fl):
-    c = ch.pick(NLEAF)
+def leaf(ch, v, k, s, fl, nleaf=NLEAF):
+    c = ch.pick(nleaf)
     if c == 0:
         return ast.Attribute(N(v), "x", L)
     if c == 1:
@@ -230,11 +230,13 @@ def form(ch, f, v, deep, k, s, idx, fl, names=("value",)):
     return ast.Call(ast.Attribute(ast.Attribute(N(v), "js", L), ["Select", "Where", "apply"][ch.pick(3)], L), [inner], [])
 
 
-def gen(ch, k, s, idx, fl, npool):
-    "root form x position x child form x first leaf; the attribute/function name pool varies at the child"
+def gen(ch, k, s, idx, fl, npool, full_leaves):
+    """root form x position x child form x first leaf; the attribute/function name pool varies at the child.
+    full_leaves False: all 7 leaf kinds only directly under the root (child form 0), the attribute leaf e.x under other child forms"""
     f = ch.pick(NFORMS)
     g = ch.pick(NFORMS)
-    return form(ch, f, "e", lambda: form(ch, g, "e", lambda: leaf(ch, "e", k, s, fl), k, s, idx, fl, NAMES[:npool]), k, s, idx, fl)
+    nleaf = NLEAF if (full_leaves or g == 0) else 1
+    return form(ch, f, "e", lambda: form(ch, g, "e", lambda: leaf(ch, "e", k, s, fl, nleaf), k, s, idx, fl, NAMES[:npool]), k, s, idx, fl)
 
 
 def verdict(op, body, fl, k, idx):
@@ -267,10 +269,10 @@ def verdict(op, body, fl, k, idx):
     return must_refuse, may
 
 
-def run_one(op, picks, k, s, idx, npool):
+def run_one(op, picks, k, s, idx, npool, full_leaves):
     fl = Flags()
     ch = Ch(picks)
-    body = gen(ch, k, s, idx, fl, npool)
+    body = gen(ch, k, s, idx, fl, npool, full_leaves)
     if ch.bad or any_left(ch, picks):
         return None, None, None
     lam = ast.Lambda(ast.arguments([], [ast.arg("e")], None, [], [], None, []), body)
@@ -294,7 +296,7 @@ def any_left(ch, picks):
     return False
 
 
-def check(op, picks, k, kb, s, idx, npool=6):
+def check(op, picks, k, kb, s, idx, npool=6, full_leaves=True):
     # an integer constant that a refusal's message may render (ast.dump / ast.unparse in the ValueError text) is bounded to one
     # digit, otherwise CrossHair enumerates its digits; everywhere else it is unbounded
     if op == 2 or picks[0] == 10 or picks[1] == 10:
@@ -304,7 +306,7 @@ def check(op, picks, k, kb, s, idx, npool=6):
             if s == cand:
                 t = cand
         s = t       # a string the message may render: one of a small table ('' when the symbolic string is none of them)
-    lam, fl, ch = run_one(op, picks, k, s, idx, npool)
+    lam, fl, ch = run_one(op, picks, k, s, idx, npool, full_leaves)
     if lam is None:
         return ""
     with nt():
@@ -359,7 +361,7 @@ def c10(code: int, c3: int, c4: int, c5: int, c6: int, c7: int, c8: int, c9: int
     op, f, g = decode(code)
     if op < 0:
         return ""
-    return check(op, [f, g, c3, c4, c5, c6, c7, c8, c9], k, kb, s, idx, 6)
+    return check(op, [f, g, c3, c4, c5, c6, c7, c8, c9], k, kb, s, idx, 3, False)
 
 
 def c10t(code: int, c3: int, c4: int, c5: int, c6: int, c7: int, c8: int, c9: int, k: int, kb: int, s: str, idx: int) -> str:
